@@ -349,6 +349,86 @@ func flatten(prefix string, v interface{}, out flat) {
 }
 
 // ---------------------------------------------------------------------------
+// C28 (CR side) on the real state: CRDepositBalance of CR.tla
+
+type c28Finding struct {
+	key, what string
+	cr        int
+	known     bool // the spec's named deviation ReleasedTwice
+}
+
+// checkC28: per CID no part of the deposit bookkeeping is negative, what
+// ReturnCRDepositCoin may take (GetAvailableDepositAmount) is total - locked -
+// penalty and never more than the deposit address holds, and the total is what
+// the address holds (the ledger of the driver).
+func (in *Inst) checkC28(led *ledger, kd map[int]bool) []c28Finding {
+	var fs []c28Finding
+	st := in.comm.GetState()
+	kf := &in.comm.KeyFrame
+	for c := 1; c < len(in.env.crs); c++ {
+		k := in.env.crs[c]
+		di, ok := st.DepositInfo[k.cid]
+		if !ok {
+			continue
+		}
+		var onAddress common.Fixed64
+		for _, u := range led.deposit[c] {
+			onAddress += u.val
+		}
+		avail := in.comm.GetAvailableDepositAmount(k.cid)
+		if di.DepositAmount < 0 {
+			shape, known := "", false
+			switch {
+			case kd[c]:
+				shape, known = "released-twice-at-committee-change", true
+			default:
+				shape = in.depositRole(k)
+			}
+			fs = append(fs, c28Finding{"C28:cr-deposit-negative:" + shape, fmt.Sprintf("the locked deposit (DepositInfo.DepositAmount) of CR %d is %s: "+
+				"it was released more often than it was locked, GetAvailableDepositAmount answers %s with %s on the deposit address "+
+				"(penalty %s)", c, di.DepositAmount, avail, di.TotalAmount, di.Penalty), c, known})
+			continue
+		}
+		if di.Penalty < 0 || di.TotalAmount < 0 {
+			fs = append(fs, c28Finding{"C28:cr-deposit-part-negative", fmt.Sprintf("CR %d: TotalAmount %s, Penalty %s", c, di.TotalAmount, di.Penalty), c, false})
+		}
+		if avail > di.TotalAmount-di.DepositAmount-di.Penalty {
+			fs = append(fs, c28Finding{"C28:cr-available-exceeds-balance", fmt.Sprintf("CR %d: GetAvailableDepositAmount answers %s, total %s - locked %s - "+
+				"penalty %s allows %s", c, avail, di.TotalAmount, di.DepositAmount, di.Penalty, di.TotalAmount-di.DepositAmount-di.Penalty), c, false})
+		}
+		if di.TotalAmount != onAddress {
+			fs = append(fs, c28Finding{"C28:cr-total-differs-from-address", fmt.Sprintf("CR %d: DepositInfo.TotalAmount is %s, the unspent outputs of "+
+				"the deposit address are worth %s", c, di.TotalAmount, onAddress), c, false})
+		} else if avail > onAddress {
+			fs = append(fs, c28Finding{"C28:cr-available-exceeds-address", fmt.Sprintf("CR %d: %s may be returned, the deposit address holds %s", c, avail, onAddress), c, false})
+		}
+	}
+	_ = kf
+	return fs
+}
+
+// depositRole names what the CR is (or last was) for the key of a finding.
+func (in *Inst) depositRole(k *crKey) string {
+	st := in.comm.GetState()
+	kf := &in.comm.KeyFrame
+	if cd, ok := st.Candidates[k.cid]; ok {
+		return "candidate-" + candStates[cd.State]
+	}
+	if m, ok := kf.Members[k.did]; ok {
+		return "member-" + memStates[m.MemberState]
+	}
+	for s := int(st.CurrentSession); s >= 0; s-- {
+		if cd, ok := st.HistoryCandidates[uint64(s)][k.cid]; ok {
+			return "former-candidate-" + candStates[cd.State]
+		}
+		if m, ok := kf.HistoryMembers[uint64(s)][k.cid]; ok {
+			return "former-member-" + memStates[m.MemberState]
+		}
+	}
+	return "unknown"
+}
+
+// ---------------------------------------------------------------------------
 // C29 on the real state
 
 type c29Finding struct{ key, what string }
@@ -361,6 +441,10 @@ func (in *Inst) checkC29(tr *tracker, realPaid map[int]common.Fixed64) []c29Find
 	pending := map[int]common.Fixed64{}
 	for h, oi := range pm.WithdrawableTxInfo {
 		pending[tr.orderProp[h]] += oi.Amount
+	}
+	if n := pending[0]; n > 0 {
+		fs = append(fs, c29Finding{"C29:payable-unknown-order",
+			fmt.Sprintf("WithdrawableTxInfo holds orders worth %s that belong to no withdrawal of the current chain", n)})
 	}
 	var outstanding common.Fixed64
 	for p := 1; p <= in.env.cfg.NProps; p++ {
@@ -390,6 +474,11 @@ func (in *Inst) checkC29(tr *tracker, realPaid map[int]common.Fixed64) []c29Find
 			}
 		}
 		paid := pending[p] + realPaid[p]
+		if pending[p] > withdrawn {
+			fs = append(fs, c29Finding{"C29:payable-exceeds-withdrawn",
+				fmt.Sprintf("proposal %d: the pending withdraw orders (WithdrawableTxInfo) are worth %s, the stages marked withdrawn %s: "+
+					"an order outlived its withdrawal or a stage is ordered twice", p, pending[p], withdrawn)})
+		}
 		if paid > approved {
 			fs = append(fs, c29Finding{"C29:paid-exceeds-approved",
 				fmt.Sprintf("proposal %d: %s ordered/paid out but only %s of budget stages approved", p, paid, approved)})
